@@ -974,8 +974,13 @@ class FnTranslator:
                     out.append(f'{ind}{n} := {proj}')
         return out
 
+    def hoist_decls(self, lines, base):
+        if not getattr(self.unit, 'hoist', False):
+            return lines
+        return self._hoist_decls(lines, base)
+
     @staticmethod
-    def hoist_decls(lines, base):
+    def _hoist_decls(lines, base):
         """Python variables live in the whole function: a variable first assigned inside a branch is declared (with a
         default value that is never read) at the start of the enclosing body, and the branch assigns to it."""
         import re as _re
@@ -1239,6 +1244,7 @@ def units():
     u = Unit(MFR, 'read_track', [('infile', INFILE), ('clip', BOOL)], LIST(EXTMSG), fuel={'loop1': 'infile.rest.length + 1'})
     u.ext = True
     u.consts = {'debug': False}
+    u.hoist = True
     u.local_types = {'track': LIST(EXTMSG), 'last_status': OPT_INT}
     U.append(u)
     U.append(Unit(M, 'check_int', [('value', INT), ('low', INT), ('high', INT)], NONE))
